@@ -229,6 +229,29 @@ entry(
     "DESIGN.md section 2, C16",
 )
 
+entry(
+    "C02",
+    "Hypothesis property-based testing with two independent oracles: eigenvalues of generated covariance matrices and an own radial Fourier transform of the correlation",
+    "Every (class, dim 1-4, plain / space-time / lat-lon / lat-lon-time) the library accepts without its invalid-dimension warning, optional arguments over "
+    "their whole dimension-dependent bounds with the lower edges over-sampled, anisotropy / rotation: lambda_min >= -n var 1e-12 on lattices (up to 400 points "
+    "per axis in 1-D, 5^4 in 4-D), clusters with near-duplicates down to the last bit, sphere point sets (Yadrenko) and space x time products; |corr| <= 1, "
+    "corr(0) = 1; radial spectrum S_d(k) >= -1e-9 int r^(d-1)|rho| by composite Gauss-Legendre (exact for the seven compact classes, Gaussian-damped for the "
+    "others); dimension / bounds table vs check_dim and default_opt_arg_bounds. Configurations the library itself flags (Linear 2-D, Circular 3-D, "
+    "Spherical 4-D ...) serve as positive controls of search power.",
+    "Trusted: numpy eigvalsh; the quadrature self-test against closed-form transforms (1e-11) run on every run; model functions as evaluated (C03).",
+    "DESIGN.md section 2, C02",
+)
+entry(
+    "C03",
+    "Hypothesis property-based testing against independent mpmath (30 digit) closed forms, tanh-sinh / quadosc integral scales and a bisection first-crossing oracle",
+    "17 classes + 4 user subclasses x dim 1-3 (20% lat-lon) x parameters over their bounds x lags from 0 over denormals, 1e-12..1e-6 len, a log grid to 1e3 len "
+    "and values within 4 ulp of every piecewise boundary: variogram/covariance/correlation/cor identities, *_nugget / *_axis / *_spatial / *_yadrenko variants "
+    "(independent rotation and chord), evenness and input types at 1e-12 sill; documented closed forms at 1e-9 (+ conditioning of the TPL superposition and "
+    "near-integer exp_int orders); integral scale (get / prescribe scalar / prescribe list) and percentile scale (residual, positivity, first crossing).",
+    "Trusted: mpmath special functions; documented formulas as transcribed in oracles/closed_forms.py; four low-severity accuracy findings are excluded and probed.",
+    "DESIGN.md section 2, C03",
+)
+
 
 def main():
     props = [json.loads(l) for l in open(os.path.join(VERIF, "properties.jsonl"))]
